@@ -46,6 +46,8 @@ struct Scenario {
 fn gen(rng: &mut Rng, dir: &Path, thorough: bool) -> Scenario {
     let naming = match rng.below(8) {
         0 => NamingK::NoRotation,
+        // (the plain number naming is rare in the general generator)
+        1 | 2 => NamingK::Numbers,
         _ => flw::gen_naming(rng, true),
     };
     let rotation = naming != NamingK::NoRotation;
@@ -94,6 +96,12 @@ fn gen(rng: &mut Rng, dir: &Path, thorough: bool) -> Scenario {
             3 if rotation && rng.chance(1, 2) => Op::Restart(rng.chance(1, 2)),
             _ => Op::Write(rng.usize(50)),
         });
+    }
+    // most rotating histories contain a restart: the set-up of a logger on a directory with files
+    // is where a failing call has the most to destroy
+    if rotation && !ops.iter().any(|o| matches!(o, Op::Restart(_))) && rng.chance(2, 3) {
+        let at = 2 + rng.usize(ops.len() - 2);
+        ops.insert(at, Op::Restart(rng.chance(1, 2)));
     }
     ops.push(Op::Write(7));
     Scenario { cfg, ops, t0: flw::base_time_ns(rng) }
@@ -377,14 +385,45 @@ pub fn run_case(ctx: &mut CaseCtx) -> CaseResult {
             let j = rng.usize(i + 1);
             cands.swap(i, j);
         }
-        // every class should be seen
+        // the calls of a set-up that happens on a directory with files (first record after a
+        // restart) come first: few per history, and nothing else reaches that code
+        let mut setup_ids: Vec<u64> = Vec::new();
+        {
+            let mut s = 0u64;
+            let mut after_restart = false;
+            for op in &sc.ops {
+                match op {
+                    Op::Restart(_) => after_restart = true,
+                    Op::Write(_) => {
+                        if after_restart {
+                            setup_ids.push(s);
+                            after_restart = false;
+                        }
+                        s += 1;
+                    }
+                    _ => {}
+                }
+            }
+        }
         let mut picked: Vec<(Call, u32)> = Vec::new();
+        let mut k = 0;
+        while k < cands.len() && picked.len() < 5 {
+            let in_setup = matches!(&cands[k].0.win, Win::Record(s) if setup_ids.contains(s))
+                && matches!(cands[k].0.class, "rename" | "open-dir" | "open-create" | "unlink")
+                && cands[k].1 == 0;
+            if in_setup {
+                picked.push(cands.remove(k));
+            } else {
+                k += 1;
+            }
+        }
+        // every class should be seen
         for class in ["write-log", "open-create", "open-dir", "rename", "unlink", "write-gz"] {
             if let Some(p) = cands.iter().position(|(c, _)| c.class == class) {
                 picked.push(cands.remove(p));
             }
         }
-        let want = if ctx.thorough { 30 } else { 7 };
+        let want = if ctx.thorough { 30 } else { 10 };
         while picked.len() < want && !cands.is_empty() {
             picked.push(cands.remove(0));
         }
